@@ -144,3 +144,39 @@ M('c04d-pipelined-after-create', 'C04', 'break', CP,
   '    // Detect pipelining.\n    if (htp_list_size(connp->conn->transactions) > connp->out_next_tx_index) {\n        connp->conn->flags |= HTP_CONN_PIPELINED;\n    }\n',
   '', 'C04.d', edits=[(CP, '    // Detect pipelining.\n    if (htp_list_size(connp->conn->transactions) > connp->out_next_tx_index) {\n        connp->conn->flags |= HTP_CONN_PIPELINED;\n    }\n', ''),
                       (CP, '    connp->in_tx = tx;   \n', '    connp->in_tx = tx;   \n    if (htp_list_size(connp->conn->transactions) > connp->out_next_tx_index) {\n        connp->conn->flags |= HTP_CONN_PIPELINED;\n    }\n')])
+
+# ---------------- C06
+M('c06a-drop-entity-len-none-arm', 'C06', 'break', TX,
+  '            tx->response_entity_len += d.len;\n\n            htp_status_t rc = htp_res_run_hook_body_data(tx->connp, &d);',
+  '            ;\n            htp_status_t rc = htp_res_run_hook_body_data(tx->connp, &d);', 'C06.a')
+M('c06a-keep-local-n', 'C06', 'keep', TX,
+  '    d->tx->request_entity_len += d->len;\n\n    // Invoke all callbacks.\n    htp_status_t rc = htp_req_run_hook_body_data(d->tx->connp, d);',
+  '    htp_tx_t *txl = d->tx;\n    txl->request_entity_len += d->len;\n\n    // Invoke all callbacks.\n    htp_status_t rc = htp_req_run_hook_body_data(d->tx->connp, d);')
+M('c06a-entity-len-uses-other-len', 'C06', 'break', TX,
+  '            tx->request_entity_len += d.len;\n            htp_status_t rc = htp_req_run_hook_body_data(tx->connp, &d);',
+  '            tx->request_entity_len += len + (len > 65536);\n            htp_status_t rc = htp_req_run_hook_body_data(tx->connp, &d);', 'C06.a')
+M('c06b-chunked-data-drop-consume', 'C06', 'break', RS,
+  '    connp->out_current_read_offset += bytes_to_consume;\n    connp->out_current_consume_offset += bytes_to_consume;\n    connp->out_stream_offset += bytes_to_consume;\n    connp->out_chunked_length -= bytes_to_consume;',
+  '    connp->out_current_read_offset += bytes_to_consume;\n    connp->out_stream_offset += bytes_to_consume;\n    connp->out_chunked_length -= bytes_to_consume;', 'C06.b')
+M('c06b-identity-left-not-decremented-on-path', 'C06', 'break', RQ,
+  '    connp->in_body_data_left -= bytes_to_consume;\n\n    if (connp->in_body_data_left == 0) {',
+  '    if (bytes_to_consume > 1) connp->in_body_data_left -= bytes_to_consume;\n\n    if (connp->in_body_data_left == 0) {', 'C06.b')
+M('c06b-keep-reorder', 'C06', 'keep', RQ,
+  '    connp->in_current_read_offset += bytes_to_consume;\n    connp->in_current_consume_offset += bytes_to_consume;\n    connp->in_stream_offset += bytes_to_consume;\n    connp->in_tx->request_message_len += bytes_to_consume;\n    connp->in_body_data_left -= bytes_to_consume;',
+  '    connp->in_body_data_left -= bytes_to_consume;\n    connp->in_tx->request_message_len += bytes_to_consume;\n    connp->in_stream_offset += bytes_to_consume;\n    connp->in_current_consume_offset += bytes_to_consume;\n    connp->in_current_read_offset += bytes_to_consume;')
+M('c06b-min-shape-broken', 'C06', 'break', RS,
+  '    if (connp->out_current_len - connp->out_current_read_offset >= connp->out_body_data_left) {\n        bytes_to_consume = connp->out_body_data_left;',
+  '    if (connp->out_current_len - connp->out_current_read_offset + 1 >= connp->out_body_data_left) {\n        bytes_to_consume = connp->out_body_data_left;', 'C06.b')
+M('c06c-chunked-message-len-missing', 'C06', 'break', RQ,
+  '    connp->in_tx->request_message_len += bytes_to_consume;\n    connp->in_chunked_length -= bytes_to_consume;',
+  '    connp->in_chunked_length -= bytes_to_consume;', 'C06.c')
+M('c06c-response-central-accounting-moved', 'C06', 'break', TX,
+  '    // Keep track of body size before decompression.\n    tx->response_message_len += d.len;\n',
+  '', 'C06.c', edits=[(TX, '    // Keep track of body size before decompression.\n    tx->response_message_len += d.len;\n', ''),
+                      (TX, '            tx->response_entity_len += d.len;\n\n            htp_status_t rc = htp_res_run_hook_body_data(tx->connp, &d);', '            tx->response_entity_len += d.len;\n            tx->response_message_len += d.len;\n\n            htp_status_t rc = htp_res_run_hook_body_data(tx->connp, &d);')])
+M('c06d-marker-after-hook', 'C06', 'break', TX,
+  '    // Finalize request body.\n    if (htp_tx_req_has_body(tx)) {\n        htp_status_t rc = htp_tx_req_process_body_data_ex(tx, NULL, 0);\n        if (rc != HTP_OK) return rc;\n    }\n\n    tx->request_progress = HTP_REQUEST_COMPLETE;\n\n    // Run hook REQUEST_COMPLETE.\n    htp_status_t rc = htp_hook_run_all(tx->connp->cfg->hook_request_complete, tx);\n    if (rc != HTP_OK) return rc;',
+  '    tx->request_progress = HTP_REQUEST_COMPLETE;\n\n    // Run hook REQUEST_COMPLETE.\n    htp_status_t rc = htp_hook_run_all(tx->connp->cfg->hook_request_complete, tx);\n    if (rc != HTP_OK) return rc;\n    if (htp_tx_req_has_body(tx)) {\n        rc = htp_tx_req_process_body_data_ex(tx, NULL, 0);\n        if (rc != HTP_OK) return rc;\n    }', 'C06.d')
+M('c06d-marker-condition-weakened', 'C06', 'break', TX,
+  '        if (tx->response_transfer_coding != HTP_CODING_NO_BODY) {\n            htp_tx_res_process_body_data_ex(tx, NULL, 0);',
+  '        if (tx->response_transfer_coding == HTP_CODING_CHUNKED) {\n            htp_tx_res_process_body_data_ex(tx, NULL, 0);', 'C06.d')
